@@ -32,9 +32,9 @@ Section Total.
   Proof.
     unfold simple_term, MAX_POWER. intros H.
     assert (Hc : forall r : res (T * nat),
-               r = match @parse_dec T NT part with Some c0 => Ok (c0, O) | None => Err EInvalidConstant end ->
+               r = match @parse_dec_finite T NT part with Some c0 => Ok (c0, O) | None => Err EInvalidConstant end ->
                r = Ok (c, p) -> (Z.of_nat p <= 65535)%Z).
-    { intros r -> Hr. destruct (parse_dec part); [injection Hr as _ <-; cbn; lia | discriminate]. }
+    { intros r -> Hr. destruct (parse_dec_finite part); [injection Hr as _ <-; cbn; lia | discriminate]. }
     destruct var as [v|]; [|eapply Hc; [reflexivity|exact H]].
     destruct (find_char v part) as [x|]; [|eapply Hc; [reflexivity|exact H]].
     match type of H with (match ?co with _ => _ end) = _ => destruct co as [c0|e|w] end; try discriminate.
@@ -50,8 +50,8 @@ Section Total.
   Lemma simple_term_no_panic var part : no_panic (simple_term var part).
   Proof.
     unfold simple_term. intros w.
-    assert (Hc : (match @parse_dec T NT part with Some c0 => Ok (c0, O) | None => Err EInvalidConstant end)
-                 <> Panic w) by (destruct (parse_dec part); discriminate).
+    assert (Hc : (match @parse_dec_finite T NT part with Some c0 => Ok (c0, O) | None => Err EInvalidConstant end)
+                 <> Panic w) by (destruct (parse_dec_finite part); discriminate).
     destruct var as [v|]; [|exact Hc].
     destruct (find_char v part) as [x|]; [|exact Hc].
     set (co := match firstn x part with
@@ -60,8 +60,8 @@ Section Total.
     { subst co. intros w'. destruct (firstn x part) as [|a [|b l]].
       - discriminate.
       - destruct (N.eqb a c_plus); [discriminate|]. destruct (N.eqb a c_minus); [discriminate|].
-        destruct (parse_dec [a]); discriminate.
-      - destruct (parse_dec (a :: b :: l)); discriminate. }
+        destruct (parse_dec_finite [a]); discriminate.
+      - destruct (parse_dec_finite (a :: b :: l)); discriminate. }
     destruct co as [c0|e|w']; [| discriminate | exfalso; eapply Hco; reflexivity].
     destruct (skipn (S x) part) as [|r pow_str]; [discriminate|].
     destruct (N.eqb r c_caret); [|discriminate].
@@ -97,7 +97,7 @@ Section Total.
         unfold b in Hm'. lia. }
       destruct (Z.leb_spec (2 ^ 64) (Z.of_nat (max_power_of terms) + 1)) as [Hx|Hx]; [lia|].
       destruct (Z.ltb_spec (2 ^ 63 - 1) ((Z.of_nat (max_power_of terms) + 1) * 8)) as [Hy|Hy]; [lia|].
-      discriminate.
+      destruct (sums_finite terms); discriminate.
     - discriminate.
     - exfalso. eapply (mapM_no_panic (simple_term var) parts); [apply simple_term_no_panic|exact Hm].
   Qed.
@@ -113,7 +113,7 @@ Section Total.
       assert (Hp : forall w', @inter_pow T NT ps <> Panic w').
       { intros w'. unfold inter_pow. destruct (contains_char c_slash ps).
         - destruct (parse_fraction ps); discriminate.
-        - destruct (parse_dec ps); discriminate. }
+        - destruct (parse_dec_finite ps); discriminate. }
       destruct (inter_pow ps) as [p|e|w']; [apply IH | discriminate | exfalso; eapply Hp; reflexivity].
     - apply IH.
   Qed.
@@ -126,10 +126,11 @@ Section Total.
       destruct (str_eqb (a :: l) [c_minus]); [discriminate|].
       destruct (contains_char c_slash (a :: l)).
       - destruct (parse_fraction (a :: l)); discriminate.
-      - destruct (parse_dec (a :: l)); discriminate. }
+      - destruct (parse_dec_finite (a :: l)); discriminate. }
     destruct (inter_coeff cs) as [c|e|w']; [| discriminate | exfalso; eapply Hc; reflexivity].
     destruct (scan_vars (length rest) rest []) as [vs|e|w'] eqn:Hs; try discriminate.
-    exfalso. eapply scan_vars_no_panic. exact Hs.
+    - destruct (forallb _ _); discriminate.
+    - exfalso. eapply scan_vars_no_panic. exact Hs.
   Qed.
 
   Theorem inter_total (s : str) : no_panic (parse_inter U s).
